@@ -346,3 +346,154 @@ def check_masks(nmax=4):
     r['stats'] = dict(paths=2, queries=ctx.queries, asserts=ctx.asserts, asserts_proved=ctx.asserts - len(ctx.violations), solver_s=ctx.solver_s, steps=ctx.asserts)
     r['wall'] = round(time.time() - t0, 2)
     return r
+
+# ---------------------------------------------------------------------------------------------------------------------------
+# C18.options: the option scan of main() ("key = value" lines of the grid file) followed by the degrees-to-radians block, interpreted
+# symbolically from the AST for L lines in arbitrary order: every line has a symbolic key token, a symbolic "second token is '='" flag,
+# a symbolic numeric reading and a symbolic string reading of its third token, and may be empty.  Claim: whatever the order of the lines,
+# each bound ends up as the LAST value listed for it (else its initial value), the four horizontal bounds scaled by PI/180 exactly when
+# the finally selected grid type is spherical, chunk or annulus (bounds in degrees), z_min / z_max unscaled.
+BOUNDS = ('x_min', 'x_max', 'y_min', 'y_max', 'z_min', 'z_max')
+def check_options(L=3):
+    t0 = time.time()
+    r = dict(id='C18.options', case=[L], verdict='PROVED', violations=[], undecided=[], stats={}, reached={}, called=['main (source/gwb-grid/main.cc, Clang AST): option scan over the grid file lines and the degrees-to-radians block'], axioms=['PI is an uninterpreted positive real constant; string_to_double / string_to_unsigned_int of the third token = an arbitrary real per line'], validated=0, validation_mismatch=[], wall=0, samples=[])
+    queries = 0; solver_s = 0.0; asserts = 0
+    try:
+        tree = astx.main_tree(SRC, ['-I' + os.path.join(build.REPO, 'include', 'vtu11')])
+        ids = {}
+        def sid(s): return z3.IntVal(ids.setdefault(s, len(ids)))
+        PI = z3.Real('PI'); fresh = [0]
+        def fb(): fresh[0] += 1; return z3.Bool('unk_%d' % fresh[0])
+        tracked = set(BOUNDS) | {'grid_type'}
+        state = {v: z3.Real('init_' + v) for v in BOUNDS}; state['grid_type'] = z3.Int('init_grid_type')
+        init = dict(state)
+        # the enclosing statement list: the range-for over `data` whose body assigns grid_type
+        seqs = astx.find(tree, lambda x: x[0] == 'seq' and any(c[0] == 'forrange' and c[1] == ('var', 'data') and _mentions(c[2], 'grid_type') for c in x[1]))
+        if len(seqs) != 1: raise astx.AstxError('expected one option loop over `data`, found %d' % len(seqs))
+        stmts = seqs[0][1]; at = [i for i, c in enumerate(stmts) if c[0] == 'forrange' and c[1] == ('var', 'data') and _mentions(c[2], 'grid_type')][0]
+        def assigned(t):
+            if not isinstance(t, tuple): return False
+            if t and t[0] in ('bin', 'cassign') and (t[0] == 'cassign' or t[1] in ('=', '+=', '-=', '*=', '/=')) and t[2][0] == 'var' and t[2][1] in tracked: return True
+            if t and t[0] == 'call' and t[1] in ('operator=', 'operator+=', 'assign', 'swap') and t[2] and t[2][0][0] == 'var' and t[2][0][1] in tracked: return True
+            if t and t[0] == 'un' and t[1] in ('++', '--') and t[2][0] == 'var' and t[2][1] in tracked: return True
+            return any(assigned(x) or (isinstance(x, list) and any(assigned(y) for y in x)) for x in t)
+        def val(t, line, defs):
+            k = t[0]
+            if k == 'int' or k == 'float': return z3.RealVal(t[1])
+            if k == 'var':
+                if t[1] in state: return state[t[1]]
+                if t[1] in defs: return defs[t[1]]
+                if t[1] == 'PI': return PI
+                raise astx.AstxError('value of ' + t[1])
+            if k == 'idx' and t[1] == ('var', 'line_i') and t[2] == ('int', 2) and line is not None: return line['sid']
+            if k == 'call' and t[1] in ('string_to_double', 'string_to_unsigned_int', 'string_to_int') and len(t[2]) >= 1 and t[2][0] == ('idx', ('var', 'line_i'), ('int', 2)) and line is not None: return line['num']
+            if k == 'call' and len(t[2]) == 1 and t[1] not in ('string_to_double', 'string_to_unsigned_int'):      # conversions / constructors around one value
+                return val(t[2][0], line, defs)
+            if k == 'bin' and t[1] in ('*', '/', '+', '-'):
+                a, b = val(t[2], line, defs), val(t[3], line, defs)
+                return a * b if t[1] == '*' else a / b if t[1] == '/' else a + b if t[1] == '+' else a - b
+            if k == 'cond': return z3.If(cond(t[1], line, defs), val(t[2], line, defs), val(t[3], line, defs))
+            raise astx.AstxError('value shape: ' + astx.term_str(t))
+        def cond(t, line, defs):
+            k = t[0]
+            if k == 'bin' and t[1] == '&&': return z3.And(cond(t[2], line, defs), cond(t[3], line, defs))
+            if k == 'bin' and t[1] == '||': return z3.Or(cond(t[2], line, defs), cond(t[3], line, defs))
+            if k == 'un' and t[1] == '!': return z3.Not(cond(t[2], line, defs))
+            if k == 'call' and t[1] in ('operator==', 'operator!=') and len(t[2]) == 2:
+                a, b = t[2]
+                if a[0] == 'str': a, b = b, a
+                if b[0] == 'str':
+                    c = None
+                    if a == ('var', 'grid_type'): c = state['grid_type'] == sid(b[1])
+                    elif line is not None and a == ('idx', ('var', 'line_i'), ('int', 0)): c = line['key'] == sid(b[1])
+                    elif line is not None and a == ('idx', ('var', 'line_i'), ('int', 1)) and b[1] == '=': c = line['eq']
+                    elif line is not None and a == ('idx', ('var', 'line_i'), ('int', 2)): c = line['sid'] == sid(b[1])
+                    if c is not None: return c if t[1] == 'operator==' else z3.Not(c)
+            if k == 'call' and t[1] == 'empty' and line is not None and t[2] == [('var', 'line_i')]: return line['empty']
+            if _mentions(t, 'line_i') or any(_mentions(t, v) for v in tracked): raise astx.AstxError('condition shape: ' + astx.term_str(t))
+            return fb()
+        def assign(name, new, g): state[name] = z3.If(g, new, state[name]) if not z3.is_true(g) else new
+        def run(tr, g, line, defs):
+            """returns the guard under which execution continues after tr (continue ends the line)"""
+            k = tr[0]
+            if k == 'seq':
+                defs = dict(defs)
+                for c in tr[1]: g = run(c, g, line, defs)
+                return g
+            if k == 'continue': return z3.BoolVal(False)
+            if k == 'if':
+                if not (assigned(tr[2]) or assigned(tr[3]) or _mentions(tr[2], 'continue') or 'continue' in str(tr[2]) or 'continue' in str(tr[3])): return g
+                c = cond(tr[1], line, defs)
+                g1 = run(tr[2], z3.And(g, c), line, defs); g2 = run(tr[3], z3.And(g, z3.Not(c)), line, defs)
+                return z3.simplify(z3.Or(g1, g2))
+            if k == 'decl':
+                for n, v in tr[1]:
+                    if v is None: continue
+                    try: defs[n] = val(v, line, defs)
+                    except astx.AstxError: defs.pop(n, None)
+                return g
+            if k == 'expr':
+                e = tr[1]
+                if not assigned(e): return g
+                if e[0] == 'bin' and e[1] == '=' and e[2][0] == 'var': assign(e[2][1], val(e[3], line, defs), g); return g
+                if e[0] == 'call' and e[1] == 'operator=' and e[2][0][0] == 'var': assign(e[2][0][1], val(e[2][1], line, defs), g); return g
+                if e[0] == 'cassign' and e[1] in ('*=', '/=', '+=', '-=') and e[2][0] == 'var':
+                    a, b = state[e[2][1]], val(e[3], line, defs)
+                    assign(e[2][1], a * b if e[1] == '*=' else a / b if e[1] == '/=' else a + b if e[1] == '+=' else a - b, g); return g
+                raise astx.AstxError('assignment shape: ' + astx.term_str(e))
+            if assigned(tr): raise astx.AstxError('statement kind %s assigns a tracked variable' % k)
+            return g
+        lines = [dict(key=z3.Int('key_%d' % j), eq=z3.Bool('eq_%d' % j), num=z3.Real('num_%d' % j), sid=z3.Int('str_%d' % j), empty=z3.Bool('empty_%d' % j)) for j in range(L)]
+        for ln in lines: run(stmts[at][2], z3.BoolVal(True), ln, {})
+        # every later statement of the same list that assigns a tracked variable (the degrees-to-radians block)
+        post = 0
+        for c in stmts[at + 1:]:
+            if assigned(c): run(c, z3.BoolVal(True), None, {}); post += 1
+        # oracle
+        curved = z3.Or(*[state['grid_type'] == sid(s) for s in ('spherical', 'chunk', 'annulus')])
+        def last(name, field, default):
+            v = default
+            for ln in lines: v = z3.If(z3.And(z3.Not(ln['empty']), ln['key'] != sid('#'), ln['key'] == sid(name), ln['eq']), ln[field], v)
+            return v
+        pre = [PI > 3, PI < 4]
+        decl = astx.find(tree, lambda x: x[0] == 'decl' and any(n == 'grid_type' for n, v in x[1]))
+        lit = []
+        def strs(t):
+            if isinstance(t, tuple):
+                if len(t) == 2 and t[0] == 'str': lit.append(t[1])
+                for x in t: strs(x)
+            elif isinstance(t, list):
+                for x in t: strs(x)
+        if len(decl) == 1: strs(decl[0])
+        if len(lit) == 1: pre.append(init['grid_type'] == sid(lit[0]))      # the declared default grid type (else: arbitrary)
+        want_type = last('grid_type', 'sid', init['grid_type'])
+        claims = [("the grid type is the last one listed", state['grid_type'] == want_type)]
+        want_curved = z3.Or(*[want_type == sid(s) for s in ('spherical', 'chunk', 'annulus')])
+        for b in BOUNDS:
+            raw = last(b, 'num', init[b])
+            exp = z3.If(want_curved, raw * (PI / 180), raw) if b[0] in 'xy' else raw
+            listed = z3.Or(*[z3.And(z3.Not(ln['empty']), ln['key'] != sid('#'), ln['key'] == sid(b), ln['eq']) for ln in lines])      # an unlisted bound stays NaN and main() refuses to run
+            claims.append(("%s is the last listed value, in radians exactly when the selected grid type takes degrees, whatever the order of the lines" % b, z3.Implies(listed, state[b] == exp)))
+        for what, cl in claims:
+            sol = z3.Solver(); sol.set('timeout', 120000); sol.add(*pre); sol.add(z3.Not(cl))
+            t = time.time(); res = sol.check(); solver_s += time.time() - t; queries += 1; asserts += 1
+            if res == z3.sat:
+                m = sol.model(); inv = {v: k for k, v in ids.items()}
+                def tok(x):
+                    i = m.eval(x, model_completion=True).as_long(); return inv.get(i, 'other%d' % i)
+                desc = '; '.join('line %d: %s' % (j, '(empty)' if z3.is_true(m.eval(ln['empty'], model_completion=True)) else '%s %s <num %s | str %s>' % (tok(ln['key']), '=' if z3.is_true(m.eval(ln['eq'], model_completion=True)) else '?', m.eval(ln['num'], model_completion=True), tok(ln['sid']))) for j, ln in enumerate(lines))
+                r['violations'].append(dict(kind='assert', what=what, detail='grid file lines: ' + desc + '; initial grid type: ' + tok(init['grid_type']), inputs=[('key_%d' % j, 'i64', m.eval(ln['key'], model_completion=True).as_long(), tok(ln['key'])) for j, ln in enumerate(lines)], native=None))
+            elif res == z3.unknown: r['undecided'].append(('unknown', what))
+        if r['violations']: r['verdict'] = 'VIOLATED'
+        elif r['undecided']: r['verdict'] = 'UNDECIDED'
+        # vacuity: a line can set a bound, and the post block is found
+        sol = z3.Solver(); sol.add(*pre); sol.add(state['x_min'] != init['x_min'], state['grid_type'] != init['grid_type']); queries += 1
+        reach = sol.check() == z3.sat
+        if not reach: raise astx.AstxError('vacuous encoding: option lines cannot change x_min and grid_type')
+        r['reached'] = {'__path_END': 1, 'lines': L, 'statements after the loop that assign a bound': post, 'a line can change x_min and grid_type': 1}
+        r['samples'].append(dict(obligation='C18.options', lines=L, claims=len(claims), post_blocks=post))
+    except astx.AstxError as e:
+        r['verdict'] = 'ENCODING-ERROR'; r['undecided'].append(('astx', str(e)))
+    r['stats'] = dict(paths=1, queries=queries, asserts=asserts, asserts_proved=asserts - len(r['violations']), solver_s=solver_s, steps=asserts)
+    r['wall'] = round(time.time() - t0, 2)
+    return r
